@@ -236,6 +236,29 @@ class Json:
                 return self.inert_string(body, a[1], depth + 1)
             if n == "std::iter::Iterator::collect":
                 return self.inert_string(body, a[0], depth + 1)
+            if n.rsplit("::", 1)[-1] in ("new", "with_capacity") and ("std::vec::Vec" in n or "std::string::String" in n) and len(t) > 3:
+                # a collection filled by hand: what it holds is what is pushed into it in this body
+                tmc = body.blocks[t[3]]["term"]
+                if tmc is not None and tmc.get("k") == "call" and len(tmc["dest"]) == 1:
+                    L = tmc["dest"][0]
+                    Tb = terms(P, body)
+                    fills = []
+                    for bb2, tm2 in body.calls():
+                        last2 = (callee_name(tm2) or "").rsplit("::", 1)[-1]
+                        if not tm2["args"]:
+                            continue
+                        bp = borrowed_place(Tb, tm2["args"][0], bb2, len(body.blocks[bb2]["stmts"]))
+                        if bp is None or bp[0] != L:
+                            continue
+                        if last2 in ("push", "push_str", "extend", "extend_from_slice", "insert", "append", "push_back"):
+                            fills.append(Tb.call_args(bb2)[-1])
+                        elif last2 not in ("len", "is_empty", "join", "iter", "as_slice", "deref", "as_str", "capacity", "reserve", "concat"):
+                            return False, "the collection is changed through %s" % last2
+                    for v in fills:
+                        okk, why = self.inert_string(body, v, depth + 1)
+                        if not okk:
+                            return okk, why
+                    return True, ""
             if n in ("std::iter::Iterator::map", "std::option::Option::<T>::map"):
                 cid = closure_def_of(a[1])
                 if cid:
